@@ -195,6 +195,24 @@ def gen_a(rng, sched_rng, tier: str) -> Dict[str, Any]:
 # ---------------------------------------------------------------------------
 # Part B
 # ---------------------------------------------------------------------------
+FUNCTION_QUERIES = [
+    "$..[?match(@, 'a.*')]", "$..[?search(@, 'b')]", "$[?match(@.a, '[ab]+')]", "$..[?match(@.b, 'a')]", "$..[?search(@.a, 'c')]",
+    "$..[?match(@, 'ab?c?')]", "$[*][?search(@, 'x|a')]", "$..[?match(@, '[^a]')]", "$..[?search(@, 'a{2}')]", "$..[?match(@, '.')]",
+    "$..[?length(@) > 1]", "$..[?count(@.*) > 1]", "$..[?value(@..a) == 'a']", "$..[?match(@.a, 'a.*') || search(@.b, 'b')]",
+    "$..[?search(@, 'a') && !match(@, 'a')]", "$[?match(@, $.a)]", "$..[?search(@, 'ab')]", "$..[?match(@, 'b.*')]",
+]
+
+
+def _stringify(rng, v: Any) -> Any:
+    if isinstance(v, list):
+        return [_stringify(rng, x) for x in v]
+    if isinstance(v, dict):
+        return {k: _stringify(rng, x) for k, x in v.items()}
+    if rng.random() < 0.7:
+        return rng.choice(("a", "ab", "abc", "b", "ba", "aab", "x", "c", "bb", ""))
+    return v
+
+
 def _quoted_query(rng, t: int) -> str:
     """Bracketed names and string literals (thread-unique, some long, some with escapes):
     what the lexer/parser has to decode character by character."""
@@ -232,8 +250,20 @@ def gen_b(rng, sched_rng, tier: str) -> Dict[str, Any]:
     nthreads = rng.choice((2, 2, 3))
     programs: Dict[str, List[Dict[str, Any]]] = {}
     own_ids = 0
-    compile_storm = rng.random() < 0.3  # every thread compiles on ONE shared environment at the same time
+    storm = rng.random()
+    compile_storm = storm < 0.3  # every thread compiles on ONE shared environment at the same time
+    function_storm = 0.3 <= storm < 0.55  # every thread evaluates function-extension filters on ONE environment
     storm_env = rng.choice(envs)
+    if function_storm:
+        # string-rich documents and shared compiled queries that call match/search/length/count/value
+        for i, did in enumerate(docs):
+            op = next(o for o in setup if o["op"] == "new_doc" and o["id"] == did)
+            op["spec"] = {"json": _stringify(rng, op["spec"]["json"])}
+        fq = [rng.choice(FUNCTION_QUERIES) for _ in range(rng.randint(2, 4))]
+        fcompiled = []
+        for i, q in enumerate(fq):
+            setup.append({"op": "compile", "id": f"f{i}", "env": storm_env, "q": q})
+            fcompiled.append(f"f{i}")
     for t in range(nthreads):
         name = f"T{t}"
         prog: List[Dict[str, Any]] = []
@@ -250,6 +280,14 @@ def gen_b(rng, sched_rng, tier: str) -> Dict[str, Any]:
                     q = rng.choice(Q.INVALID_TEXTS)
                 prog.append({"op": "compile", "id": cid, "env": storm_env, "q": q})
                 prog.append({"op": "apply", "c": cid, "doc": rng.choice(docs), "entry": rng.choice(H.ENTRIES)})
+            programs[name] = prog
+            continue
+        if function_storm:
+            for _ in range(rng.randint(3, 6)):
+                if rng.random() < 0.8:
+                    prog.append({"op": "apply", "c": rng.choice(fcompiled), "doc": rng.choice(docs), "entry": rng.choice(H.ENTRIES)})
+                else:
+                    prog.append({"op": "env_call", "env": storm_env, "q": rng.choice(FUNCTION_QUERIES), "doc": rng.choice(docs), "entry": "find"})
             programs[name] = prog
             continue
         my_docs = list(docs)
